@@ -356,9 +356,17 @@ def judge_all(ctx, traces, by_id, per_batch=12000, module="ManifestTrace", cfg="
     with concurrent.futures.ThreadPoolExecutor(par) as ex:
         results = list(ex.map(one, jobs))
     nrej = 0
+    ndrift = [0]
     for (d, tp, b), (rc, out) in zip(jobs, results):
         if rc != 0 or "Model checking completed. No error has been found" not in out:
             raise vlib.InfraError("judge %s failed (rc=%s):\n%s" % (module, rc, "\n".join(str(out).splitlines()[-40:])))
+        flat = [ev for t in b for ev in t]
+        for ln in sorted({int(x) for x in re.findall(r'"DRIFT_LINE", (\d+)', out)}):
+            # an event the contract allows but which fails a drift-only clause (beyond the statement): never a verdict
+            ndrift[0] += 1
+            if len(ctx.drift) < 20:
+                ev = flat[ln - 1]
+                ctx.drift.append("%s: drift-only clause failed for event %s" % (module, json.dumps(ev)[:240]))
         lines = sorted({int(x) for x in re.findall(r'"REJECTED_LINE", (\d+)', out)})
         starts, pos = [], 1
         for t in b:
@@ -374,6 +382,7 @@ def judge_all(ctx, traces, by_id, per_batch=12000, module="ManifestTrace", cfg="
                 ctx.classify({"trace": b[i], "offset": off, "why": "event not allowed by the contract"},
                              lambda head: strip(by_id.get(head.get("scn"))))
         ctx.traces_validated += len(b) - len(rejected)
+    ctx.extra["drift_only_clause_failures"] = ctx.extra.get("drift_only_clause_failures", 0) + ndrift[0]
     return nrej
 
 
